@@ -5,7 +5,7 @@ ROOT = os.path.dirname(os.path.dirname(os.path.abspath(__file__)))
 
 BUILT = {
  "C01": dict(cat="exploration", tech="deterministic simulation: seeded workload + RNG fault injection (FaultRng), byte-budget bounded liveness, real Ristretto and free-module group",
-   text="Seeded simulation of prover nodes handed healthy and failing external RNG streams (all-zero, all-ones, constant, short-period, counter, stuck-after-n, replayed), across the configuration lattice (bits 1..64, aggregation 1..32, capacity > m, extension degree 1..6, boundary values, promises, seeds), each proof verified in all three modes alone and inside a batch. Completeness is an identity, so sampling diverse configurations under every RNG failure mode with a byte budget for prover termination is the level that fits: it decides the RNG-quantified part of the statement, which unit tests with one healthy RNG cannot.",
+   text="Seeded simulation of prover nodes handed healthy and failing external RNG streams (all-zero, all-ones, constant, short-period, counter, stuck-after-n, replayed), across the configuration lattice (bits 1..64, aggregation 1..32, capacity > m, extension degree 1..6, boundary values, promises, seeds), each proof verified in all three modes alone and inside a batch, after a byte and a serde (bincode) round trip, and (one run in eight) after a failed proving attempt on the same transcript object; boundary inputs include identity commitments, repeated openings, special blinding factors and seeds, promises adding up to 2^64. Completeness is an identity, so sampling diverse configurations under every RNG failure mode with a byte budget for prover termination is the level that fits: it decides the RNG-quantified part of the statement, which unit tests with one healthy RNG cannot.",
    note="Trusted: FreePoint is a faithful free-module stand-in for the group (every class of run also executes on real Ristretto); sampling, not proof; zero challenge (2^-252) ignored.", ref="5/C01"),
  "C02": dict(cat="exploration", tech="deterministic simulation: hostile channel + adversarial proof crafting over a simulator-owned free-module group; Fiat-Shamir challenges tapped at the merlin seam; independent paper-form reference verifier as oracle on every verification",
    text="Every verification a simulated verifier performs (honest, channel-faulted and adversarially crafted proofs, singly and in batches) is compared with an independent unoptimised evaluation of the published relation at the challenges the library actually drew: over the free module the verifier's residual must equal w * reference residual coefficient by coefficient (so a generator or proof element weighted differently shows up on its own coordinate), on Ristretto the verdicts must agree, shape defects must be refused. This decides 'the implemented linear combination is the published one' at sampled challenge points; it has no interleaving dimension and does not prove knowledge soundness of the protocol.",
@@ -14,7 +14,7 @@ BUILT = {
    text="For each sampled accepted message every datum that can be perturbed singly (context label/data, H, each G_k, bit length, each commitment, each promise, commitment order, A, each L_j, each R_j, A1, B) is faulted; verifier (and prover where possible) run with the tap on; every challenge drawn after the datum must differ, earlier ones must not; prover and verifier sequences on the honest message must be equal. Exhaustive over positions per message, sampled over messages.",
    note="Challenges identified by ordinal; aggregation factor and extension degree cannot be perturbed alone through the public API (gap: omission of M or T alone is not detected); hash collisions ignored.", ref="5/C04"),
  "C05": dict(cat="fault_enumeration", tech="deterministic simulation: hostile channel applying every single-component fault (position x replacement kind) to accepted messages; verdict oracle under catch_unwind",
-   text="For each sampled accepted message EVERY single-component fault is applied (each proof scalar/point x 5 replacement kinds + bit flips, round count +-1, extension tag +-1 with/without length repair, truncation/extension, each commitment x 4, each pair swap, each promise x 5, bit length x2 and /2, H and each G_k x {point, encoding, both}, context) and delivered through from_bytes and the validating constructors; the result must be an error value: never Ok, never a panic, in VerifyOnly and RecoverAndVerify. Exhaustive over fault positions per message; messages sampled across the lattice with ext 4-6 and m=8 guaranteed.",
+   text="For each sampled accepted message EVERY single-component fault is applied (each proof scalar/point x 5 replacement kinds + bit flips, round count +-1, extension tag +-1 with/without length repair, truncation/extension, each commitment x 4, each pair swap, each promise x 5, bit length x2 and /2, H and each G_k x {point, encoding, both}, context) and delivered through from_bytes and the validating constructors; the result must be an error value: never Ok, never a panic, in VerifyOnly and RecoverAndVerify — alone, in a batch before and behind an honest companion, next to its own unaltered original, and (sampled) in the first chunk of a batch of 257. Exhaustive over fault positions per message; messages sampled across the lattice with ext 4-6 and m=8 guaranteed.",
    note="Rejection required up to 2^-252; capacity changes are not alterations (C12); zero-round proofs excluded from the byte path (decoder refuses them).", ref="5/C05"),
  "C08": dict(cat="exploration", tech="deterministic simulation: adaptive multi-round adversary against the batch verifier; combination factors read from the MSM seam of the free-module group after every run",
    text="An adversary stronger than any real one plays 8-64 round games: after each verification run it reads the factors actually used from the verifier's final multiscalar multiplication and chooses offsets on d1[k] of two (or three) members that cancel exactly if the factors do not move, optionally touching r1/s1, permuting or resubmitting. Invariants after every submission: a batch with an invalid member is rejected, every factor is non-zero, the ratio w_i/w_j changes whenever a response scalar of i or j changed.",
@@ -38,10 +38,10 @@ BUILT = {
    text="Native: 3-6 logical clients with scripts of self-contained operations over a shared pool of parameter objects; the same scripts run under two seeded interleavings, each operation is repeated, 10% of prover operations crash via an injected RNG panic and the following operations must be served unaffected; sampled operations also run first in a fresh process; an operation's result digest must be a function of its descriptor only. Cooperative threads: 2-3 OS threads share one parameter object whose capacity exceeds every aggregate and prove / verify aggregates of different sizes; each parks at every group operation, transcript operation and RNG read and the seeded scheduler decides who continues (one seed = one replayable interleaving inside library calls); every result must equal the same operation executed alone. Schedule: Miri interprets 2-3 real threads racing first use of the statics, sharing one precomputed table, and (thorough) proving/verifying concurrently, compared with a single-threaded reference.",
    note="Operation-level atomicity assumed in the native part (the shared state that exists is inside the Miri scenarios); full-protocol Miri schedules are few (2.5 min each) and thorough-only.", ref="5/C18"),
  "C03": dict(cat="exploration", tech="deterministic simulation: seeded scheduler of a verifier node decides batch membership, size and order over a duplicated/reordered message pool; refinement against the sequential reference model (one-at-a-time verification)",
-   text="A simulated verifier node drains a pool of valid and defective messages; the seeded scheduler decides which members form a batch, how many (1..1100, concentrated on 255/256/257/511/512/513), with what repetition, in what order and in which mode. Oracle: batch Ok iff every member's singleton verdict is Ok, exactly k results, result i equal to member i's singleton mask; malformed shapes (empty, unequal sequence lengths, a member that disagrees on bits / extension degree / H / G_k but is valid on its own) are refused. Sizes beyond the chunk limit and invalid members placed beyond it are reached in every quick run (probe counters enforce it).",
+   text="A simulated verifier node drains a pool of valid and defective messages; the seeded scheduler decides which members form a batch, how many (1..1100, concentrated on 255/256/257/511/512/513), with what repetition, in what order and in which mode. Oracle: batch Ok iff every member's singleton verdict is Ok, exactly k results, result i equal to member i's singleton mask; malformed shapes (empty, unequal sequence lengths incl. chunk-aligned ones, a member that disagrees on bits / extension degree / H / G_k but is valid on its own) are refused; pools contain honest/defective twins delivered next to each other, malformed members, and aggregated statements carrying a seed in their public field. Sizes beyond the chunk limit and invalid members placed beyond it are reached in every quick run (probe counters enforce it).",
    note="Reference verdict of a member is the library's own singleton verification (soundness of that is C02); FreePoint faithful (1 run in 5 on Ristretto); weights do not cancel by accident (2^-252).", ref="5/C03"),
  "C20": dict(cat="fault_enumeration", tech="deterministic simulation: allocator seam scanning every freed block, crash-point enumeration (RNG panic at each of its call sites, error return), simulator-owned stale-stack contents, two build profiles",
-   text="Every heap block freed during a scripted life cycle (openings -> witness -> statement with seed -> prove -> verify with recovery -> drops in a seeded order) is scanned for the byte images of blinding factors, masks, the recovery seed and (64-bit) values; the life cycle is crashed at every call site of the external RNG (panic = OsRng failing with secrets live) and on the prover's error return after the witness was absorbed; a statement is dropped in place over a stack the simulator has painted (neutral / stale copies of the seed) and its bytes inspected. Enumeration is complete over crash points per configuration and runs with the library at opt-level 0 and at release.",
+   text="Every heap block freed during a scripted life cycle (openings -> witness -> statement with seed -> prove -> verify with recovery -> drops in a seeded order) is scanned for the byte images of blinding factors, masks, the recovery seed and (64-bit) values; the life cycle is crashed at every call site of the external RNG (panic = OsRng failing with secrets live) and on the prover's error return after the witness was absorbed; a statement is dropped in place over a stack the simulator has painted (neutral / stale copies of the seed) and its bytes inspected; the life cycle also covers clone_from on the owning types, several seeded members recovered in one batch, verifier error returns with masks live, and the scalar image of the bit decomposition. Enumeration is complete over crash points per configuration and runs with the library at opt-level 0 and at release.",
    note="Secrets recognised by exact byte images only; stack/register residues out of scope; Ristretto only (free-module points expose scalars by construction); the scanning wrapper itself is trusted (it wipes every freed block with volatile writes so stale harness bytes cannot resurface).", ref="5/C20"),
 }
 
